@@ -226,7 +226,7 @@ def explore(chk):
     for (fmt, doc, expect, nontriv, op) in jobs:
         case = {"format": fmt, "document": doc}
         try:
-            cs = readers[fmt]().read(doc)
+            cs = core.POOL.get(readers[fmt]).read(doc)
             caps = cs.get_captions(cs.get_languages()[0])
             I = [norm_text(c.get_text()) for c in caps]
             Inodes = [capio.obs_nodes(c.nodes) for c in caps]
